@@ -3,7 +3,7 @@
 import json, subprocess, sys
 
 HOOK_COMMITS = ["f2c46aac", "b1a8fb5b", "bbcc6d5a"]
-FIX_COMMITS = ["3d29a15d", "ccb20ab7", "6a4c8968", "8f04a981", "afa8cd74"]
+FIX_COMMITS = ["3d29a15d", "ccb20ab7", "6a4c8968", "8f04a981", "afa8cd74", "2d15dc96", "38b52e89"]
 
 # id -> (engine, level category, technique, level text, level note, design ref)
 CHECKS = {
